@@ -21,6 +21,11 @@
 //	                                                order of the critical sections that explains all answers
 //	sub|inst|hdr|note                               sign-subtree => status|body|signers
 //
+// Monitors of the release order (mon.go): mon_public (an object that becomes readable in the bucket and carries a valid
+// witness cosignature is already on record in the lock backend at that moment), mon_released (the same for a 200
+// answer), mon_oneview (all witness-cosigned checkpoints ever released for one origin, answers and bucket objects, are
+// pairwise consistent); a failing line quotes the world's request history.
+//
 // hdr = hex of the request bytes before the first blank line; note = the structural view of the
 // signed note (C:origin:size:root:ext:sigs | B:origin:sigs | M:origin, sigs = keyid+v|keyid+i where
 // v/i is the verdict of the PUBLIC verifier of that key on the note text). Lines starting with
@@ -45,6 +50,7 @@ func main() {
 	subrand := flag.Int("subrand", 150, "random large subtree requests")
 	big := flag.Int("big", 3000, "leaves of the ground-truth histories")
 	probe := flag.Bool("probe", true, "probe the CheckTree non-termination for sizes > 2^62 (last)")
+	relrounds := flag.Int("release", 6, "random rounds of the release-order scenario (after its 8 fixed cases)")
 	noadd := flag.Bool("noadd", false, "skip the add-checkpoint pair/special-case scenarios")
 	nosub := flag.Bool("nosub", false, "skip the sign-subtree scenarios")
 	flag.Parse()
@@ -71,6 +77,7 @@ func main() {
 	}
 
 	if !*noadd {
+		g.release(*relrounds) // first: its monitor lines are the shortest histories
 		g.pairs(int64(*pairs))
 		g.misc()
 	}
